@@ -656,6 +656,7 @@ func (w *world) runLive(replay *Case) {
 	if len(targets) != c14corpus.NTargets || len(targets) < 380 {
 		vk.Fatalf("corpus has %d targets", len(targets))
 	}
+	targets = append(targets, c14corpus.ExtraTargets()...)
 	// corpus statistics (sizes as the function table sees them)
 	minSlot, maxSlot := 1<<30, 0
 	pads := map[int]bool{}
